@@ -293,7 +293,6 @@ type c19Map struct {
 	spans   [][2]int // regions that are not template text: tags, soydoc, comments, literal blocks
 	tags    []c19Tag // tags in which a lexical fault can be injected
 	inTmpl  [][2]int // [start of {template ..} tag, end of {/template} tag)
-	zones   [][2]int // from a {switch}/{plural} tag to the end of its first {case}: the pinned parser spins on anything unexpected there (ledger P3, C05's)
 	lineBeg []int    // offset of the first byte of line i+1
 }
 
@@ -307,7 +306,7 @@ func c19Analyze(text string) *c19Map {
 		}
 	}
 	items := parse.VerifLex("", text, false)
-	tmplStart, zoneStart := -1, -1
+	tmplStart := -1
 	for i := 0; i < len(items); i++ {
 		it := items[i]
 		switch it.Typ {
@@ -338,13 +337,6 @@ func c19Analyze(text string) *c19Map {
 			}
 			for k := i; k < j; k++ {
 				tg.points = append(tg.points, items[k].Pos)
-			}
-			if zoneStart >= 0 {
-				m.zones = append(m.zones, [2]int{zoneStart, tg.b})
-				zoneStart = -1
-			}
-			if i+1 < j && (items[i+1].Val == "switch" || items[i+1].Val == "plural") {
-				zoneStart = tg.b
 			}
 			switch tg.cmd {
 			case c.literal:
@@ -398,15 +390,6 @@ func (m *c19Map) textLevel(p int) bool {
 	return true
 }
 
-func (m *c19Map) inZone(p int) bool {
-	for _, s := range m.zones {
-		if s[0] <= p && p <= s[1] {
-			return true
-		}
-	}
-	return false
-}
-
 func (m *c19Map) insideTemplate(p int) bool {
 	for _, s := range m.inTmpl {
 		if s[0] < p && p < s[1] {
@@ -450,14 +433,14 @@ func c19FaultsAt(r *hx.Rand, name string, m *c19Map, l int) []c19Fault {
 	// text-level points of the line
 	var tl []int
 	for p := beg; p <= end; p++ {
-		if m.textLevel(p) && !m.inZone(p) && (p == end || p == beg || text[p] == ' ' || text[p-1] == ' ' || text[p] == '{' || text[p-1] == '}') {
+		if m.textLevel(p) && (p == end || p == beg || text[p] == ' ' || text[p-1] == ' ' || text[p] == '{' || text[p-1] == '}') {
 			tl = append(tl, p)
 		}
 	}
 	// tags lying on this line
 	var tags []c19Tag
 	for _, tg := range m.tags {
-		if tg.a >= beg && tg.b <= end && !m.inZone(tg.a) {
+		if tg.a >= beg && tg.b <= end {
 			tags = append(tags, tg)
 		}
 	}
@@ -525,7 +508,7 @@ func c19FaultsAt(r *hx.Rand, name string, m *c19Map, l int) []c19Fault {
 		}
 	}
 	// (5) end of input inside a template
-	if m.textLevel(end) && m.insideTemplate(end) && end > 0 && !m.inZone(end) {
+	if m.textLevel(end) && m.insideTemplate(end) && end > 0 {
 		t := text[:end]
 		add("truncated", "no-newline", t, l, total(t), true)
 		if end < len(text) {
@@ -631,8 +614,11 @@ func c19ParseHalf(e *env, nBundles int) {
 			continue
 		}
 		cls := "parse:" + f.Class
-		if f.Sub != "" {
-			cls += ":" + strings.TrimSuffix(f.Sub, "/bundle")
+		if sub := strings.TrimSuffix(f.Sub, "/bundle"); sub != "" {
+			cls += ":" + sub
+		}
+		if strings.HasSuffix(f.Sub, "/bundle") {
+			e.res.Histogram["parse:through Bundle.Compile"]++
 		}
 		e.res.Count(f.Name+"\x00"+f.Text, true, cls)
 		switch r.Class {
@@ -810,7 +796,7 @@ func (g *c19RGen) wrapper(d int) {
 
 // failing commands for call depth 0; multi-line ones fail on their first line
 var c19FailPrints = []string{"{$missing}", "{1 < 'a'}", "{$missing.x}", "{$s|nosuchdirective}", "{$s|truncate:'q'}", "{length($a)}", "{nosuchfn($a)}",
-	"{print $missing}", "{$a + $missing}", "{$m.k.z}", "{'a' - 1}", "{$list[$missing]}", "{$a}{$missing}", "{not $t ? 1 : -$s}"}
+	"{print $missing}", "{$a + $missing}", "{$m.k.z}", "{'a' - 1}", "{$list[$missing]}", "{$a}{$missing}", "{true ? -'s' : 1}"}
 var c19FailOther = []string{"{if 1 < 'a'}x{/if}", "{foreach $q in $a}x{/foreach}", "{switch 1 < 'a'}{default}x{/switch}", "{call .ok data=\"$a\" /}",
 	"{call .ok}{param s: 1 < 'a' /}{/call}", "{if $missing.x}\nx\n{/if}", "{css $missing.x, foo}",
 	"{foreach $q in $missing.x}\nx\n{ifempty}\ny\n{/foreach}", "{let $zz9: $missing.x /}{$zz9}"}
@@ -1114,8 +1100,8 @@ func runC19(e *env) {
 		c19Replay(e)
 		return
 	}
-	c19ParseHalf(e, 14*e.scale)
-	cases := c19RenderCases(e, 40*e.scale)
+	c19ParseHalf(e, 60*e.scale)
+	cases := c19RenderCases(e, 150*e.scale)
 	for i, c := range cases {
 		c19RunRender(e, c, i)
 	}
